@@ -385,6 +385,36 @@ struct owner : fm::joint_type<owner>
     }
 };
 
+// joint type whose constructors take an instrumented element BY VALUE: the copy / move / conversion that initialises
+// the parameter runs inside joint_ptr::create()'s new-expression BEFORE the joint_type base is initialised, so a
+// failure there reaches the rollback with a block that holds nothing but the allocator's garbage.
+struct bv_owner;
+struct bv_snapshot // implicitly made from a bv_owner: what clone_joint's `T(joint, const T&)` call converts to
+{
+    elem        e;
+    std::size_t n;
+    bv_snapshot(const bv_owner& o);
+};
+struct bv_owner : fm::joint_type<bv_owner>
+{
+    elem                  held;
+    fm::joint_array<elem> arr;
+
+    bv_owner(fm::joint j, elem e) : fm::joint_type<bv_owner>(j), held(std::move(e)), arr(std::size_t(0), *this)
+    {
+        W.point(K_BODY, true);
+    }
+    bv_owner(fm::joint j, elem e, f_size, std::size_t n) : fm::joint_type<bv_owner>(j), held(std::move(e)), arr(n, *this)
+    {
+        W.point(K_BODY, true);
+    }
+    bv_owner(fm::joint j, bv_snapshot s) : fm::joint_type<bv_owner>(j), held(std::move(s.e)), arr(s.n, *this)
+    {
+        W.point(K_BODY, true);
+    }
+};
+inline bv_snapshot::bv_snapshot(const bv_owner& o) : e(o.held), n(o.arr.size()) {}
+
 //=== allocators ===========================================================================================//
 // instrumented RawAllocator: records every call; memory comes from malloc and is pre-filled with garbage
 struct log_alloc
@@ -623,7 +653,10 @@ struct core_io
     void (*followup)(void* self, verdict&); // follow-up allocations on the same allocator
 };
 
-static void drive_core(const case_id& c, verdict& v, int expect_allocs, int points, int expect_elems, core_io& io)
+// temps: by-value constructor parameters of the joint type (constructed first inside the window, outside the block,
+// destroyed at the end of the creating expression)
+static void drive_core(const case_id& c, verdict& v, int expect_allocs, int points, int expect_elems, int temps,
+                       core_io& io)
 {
     const unsigned tag = 0xC2000000u + unsigned(c.n) * 256u + unsigned(c.k);
     alog&          flog = *io.log;
@@ -662,11 +695,12 @@ static void drive_core(const case_id& c, verdict& v, int expect_allocs, int poin
                 if (W.ops != points)
                     v.add("success-op-count", fmt("%d construction steps observed, %d expected", W.ops, points));
                 int ctors = W.window_count(true), dtors = W.window_count(false);
-                if (ctors != expect_elems)
+                if (ctors != expect_elems + temps)
                     v.add("success-ctor-count",
-                          fmt("%d elements constructed, exactly %d expected", ctors, expect_elems));
-                if (dtors != 0)
-                    v.add("success-early-dtor", fmt("%d element destructions during creation", dtors));
+                          fmt("%d elements constructed, exactly %d expected", ctors, expect_elems + temps));
+                if (dtors != temps)
+                    v.add("success-early-dtor",
+                          fmt("%d element destructions during creation, %d expected", dtors, temps));
                 if (W.live_targets() != expect_elems)
                     v.add("success-live-count",
                           fmt("%d elements alive after creation, %d expected", W.live_targets(), expect_elems));
@@ -700,7 +734,7 @@ static void drive_core(const case_id& c, verdict& v, int expect_allocs, int poin
                     (flog.ev[W.log_mark].op == A_ALLOC_NODE ? g_obs_any_n1_node : g_obs_any_n1_array)++;
                 //--- later: destroyed once, memory released once with matching parameters
                 io.release(obj);
-                dtors = W.window_count(false);
+                dtors = W.window_count(false) - temps;
                 if (dtors != expect_elems)
                     v.add("success-dtor-count",
                           fmt("%d element destructions after release, exactly %d expected", dtors, expect_elems));
@@ -760,11 +794,17 @@ static void drive_core(const case_id& c, verdict& v, int expect_allocs, int poin
                 else if (after.outstanding.size() < base.outstanding.size())
                     v.add("alloc-released-foreign", "a block that existed before the call was released");
                 // constructed elements were inside a block obtained in the window (or held before)
+                int skip = temps; // constructor parameters live on the caller's stack
                 for (std::size_t i = W.ev_mark; i < W.ev.size(); ++i)
                 {
                     const eev& e = W.ev[i];
                     if (e.kind == K_DTOR || e.serial < W.first_target)
                         continue;
+                    if (skip > 0)
+                    {
+                        --skip;
+                        continue;
+                    }
                     bool inside = false;
                     for (auto& o : base.outstanding)
                         if (e.addr >= o.first && e.addr + sizeof(elem) <= o.first + o.second.count * o.second.size)
@@ -899,7 +939,7 @@ struct thunks
     {
         followup_allocs(*static_cast<self_t*>(s)->fix, v);
     }
-    static void run(const case_id& c, verdict& v, int expect_allocs, int points, int expect_elems)
+    static void run(const case_id& c, verdict& v, int expect_allocs, int points, int expect_elems, int temps = 0)
     {
         W.reset();
         {
@@ -907,7 +947,7 @@ struct thunks
             src_env src;
             self_t  self{&fix, &src, &c};
             core_io io{&fix.log, &src.log, &self, &prep, &ctx_free, &create, &release, &obj_free, &followup};
-            drive_core(c, v, expect_allocs, points, expect_elems, io);
+            drive_core(c, v, expect_allocs, points, expect_elems, temps, io);
         } // sources and fixture destroyed (pool / stack destructors run their leak check)
         drive_post(v);
     }
@@ -991,6 +1031,29 @@ struct prep_src
         return no_ctx{};
     }
 };
+struct bv_ctx // source joint object with a by-value constructor (for clone_joint)
+{
+    fm::joint_ptr<bv_owner, log_alloc> src;
+};
+template <class A>
+struct prep_bv_owner
+{
+    static bv_ctx prep(A&, src_env& s, const case_id& c)
+    {
+        s.fill(1);
+        return bv_ctx{fm::allocate_joint<bv_owner>(s.alloc, fm::joint_size(joint_cap(c)), std::move(s.elems[0]),
+                                                   f_size{}, std::size_t(c.n))};
+    }
+};
+template <class A>
+struct prep_src1 // at least one source element
+{
+    static no_ctx prep(A&, src_env& s, const case_id& c)
+    {
+        s.fill(c.n > 1 ? c.n : 1);
+        return no_ctx{};
+    }
+};
 template <class A>
 struct prep_owner
 {
@@ -1045,6 +1108,14 @@ static std::size_t need_shared(int, int)
 {
     return 128; // control block + element (over-approximation)
 }
+static int pts_n3(int n)
+{
+    return n + 3; // parameter, member initialised from it, n array elements, constructor body
+}
+static std::size_t need_joint_bv(int n, int slack)
+{
+    return sizeof(bv_owner) + std::size_t(n) * sizeof(elem) + std::size_t(slack);
+}
 static std::size_t need_joint(int n, int slack)
 {
     return sizeof(owner) + std::size_t(n) * sizeof(elem) + std::size_t(slack);
@@ -1052,6 +1123,8 @@ static std::size_t need_joint(int n, int slack)
 
 // one helper = a local struct with the armed call; the body must call W.go() right before the library call
 #define HELPER(NAME, NMIN, NMAX, THROWING, POINTS, NEED, SLACK, PREP, CTX, EA, PTS, EE, ...)                       \
+    HELPER_T(NAME, NMIN, NMAX, THROWING, POINTS, NEED, SLACK, PREP, CTX, EA, PTS, EE, 0, __VA_ARGS__)
+#define HELPER_T(NAME, NMIN, NMAX, THROWING, POINTS, NEED, SLACK, PREP, CTX, EA, PTS, EE, TEMPS, ...)              \
     {                                                                                                              \
         struct H                                                                                                   \
         {                                                                                                          \
@@ -1063,7 +1136,7 @@ static std::size_t need_joint(int n, int slack)
             }                                                                                                      \
             static void run(const case_id& c, verdict& v)                                                          \
             {                                                                                                      \
-                thunks<Fix, PREP, H>::run(c, v, EA, PTS, EE);                                                      \
+                thunks<Fix, PREP, H>::run(c, v, EA, PTS, EE, TEMPS);                                                     \
             }                                                                                                      \
         };                                                                                                         \
         out.push_back({NAME, NMIN, NMAX, THROWING, POINTS, NEED, &H::run, SLACK});                                 \
@@ -1084,6 +1157,11 @@ static std::size_t need_joint(int n, int slack)
 #define JOINT2(NAME, ...)                                                                                          \
     HELPER(NAME, 0, 16, true, pts_n1, need_joint, true, prep_owner<A>, src_ctx, 1, c.n + 1, c.n, W.go();           \
            return __VA_ARGS__;)
+// joint objects whose constructor takes an element by value: points = parameter + member initialised from it + n array
+// elements + body; n + 1 elements stay alive (member + array), one temporary (the parameter)
+#define JOINT_BV(NAME, NMIN, NMAX, PREP, CTX, ...)                                                                 \
+    HELPER_T(NAME, NMIN, NMAX, true, pts_n3, need_joint_bv, true, PREP, CTX, 1, c.n + 3, c.n + 1, 1, W.go();       \
+             return __VA_ARGS__;)
 // stand-alone joint_array over an existing joint object: memory of the host, no allocator call expected
 #define JARR(NAME, ...)                                                                                            \
     HELPER(NAME, 0, 16, true, pts_n, need_joint, true, prep_host<A>, host_ctx<A>, 0, c.n, c.n, top_obs<A> obs{x};  \
@@ -1173,6 +1251,21 @@ static void add_helpers(std::vector<helper_entry>& out)
     JOINT2("joint.move", fm::allocate_joint<owner>(a, fm::joint_size(joint_cap(c)), std::move(*x.src)))
     JOINT2("clone_joint", fm::clone_joint(a, *x.src))
 
+    //--- by-value constructor parameters: failure point BEFORE the joint_type base exists (k = 1) -------------
+    JOINT_BV("joint_byvalue.lvalue", 0, 0, prep_src1<A>, no_ctx,
+             fm::allocate_joint<bv_owner>(a, fm::joint_size(joint_cap(c)), s.elems[0]))
+    JOINT_BV("joint_byvalue.const_lvalue", 0, 0, prep_src1<A>, no_ctx,
+             fm::allocate_joint<bv_owner>(a, fm::joint_size(joint_cap(c)), static_cast<const elem&>(s.elems[0])))
+    JOINT_BV("joint_byvalue.rvalue", 0, 0, prep_src1<A>, no_ctx,
+             fm::allocate_joint<bv_owner>(a, fm::joint_size(joint_cap(c)), std::move(s.elems[0])))
+    JOINT_BV("joint_byvalue_more.lvalue", 0, 16, prep_src1<A>, no_ctx,
+             fm::allocate_joint<bv_owner>(a, fm::joint_size(joint_cap(c)), s.elems[0], f_size{}, n))
+    JOINT_BV("joint_byvalue_more.rvalue", 0, 16, prep_src1<A>, no_ctx,
+             fm::allocate_joint<bv_owner>(a, fm::joint_size(joint_cap(c)), std::move(s.elems[0]), f_size{}, n))
+    JOINT_BV("joint_ptr_ctor_byvalue_more.lvalue", 0, 16, prep_src1<A>, no_ctx,
+             fm::joint_ptr<bv_owner, A>(a, fm::joint_size(joint_cap(c)), s.elems[0], f_size{}, n))
+    JOINT_BV("clone_joint_byvalue", 0, 16, prep_bv_owner<A>, bv_ctx, fm::clone_joint(a, *x.src))
+
     //--- stand-alone joint_array built over an existing joint object ---------------------------------------
     JARR("jarr.size", W.go(); return std::make_unique<jarray_t>(n, *x.host);)
     JARR("jarr.size_value", const elem proto(55); W.go(); return std::make_unique<jarray_t>(n, proto, *x.host);)
@@ -1194,6 +1287,8 @@ static void add_helpers(std::vector<helper_entry>& out)
 #undef JOINT
 #undef JOINT2
 #undef JARR
+#undef JOINT_BV
+#undef HELPER_T
 #undef HELPER
 
 //=== library handlers =====================================================================================//
